@@ -11,7 +11,6 @@ import (
 	"encoding/binary"
 	"fmt"
 	"math/rand/v2"
-	"os"
 	"sort"
 	"strings"
 
@@ -24,41 +23,18 @@ var chanKeys = []string{"a", "ab", "b"}
 var chanIDs = []string{"ca", "cab", "cb"}
 var chanTypes = []uint8{1, 2, 1}
 
-var tmpParent string
-
-func tempDir() string {
-	if tmpParent == "" {
-		d, err := os.MkdirTemp("", "verif-c11-*")
-		if err != nil {
-			panic(err)
-		}
-		tmpParent = d
-	}
-	d, err := os.MkdirTemp(tmpParent, "db-*")
-	if err != nil {
-		panic(err)
-	}
-	return d
-}
-
-func cleanupAll() {
-	if tmpParent != "" {
-		_ = os.RemoveAll(tmpParent)
-	}
-}
+func cleanupAll() {}
 
 type msgDB struct {
-	dir string
 	eng *message.Engine
 }
 
 func openMsgDB() *msgDB {
-	dir := tempDir()
-	eng, err := message.Open(dir)
+	eng, err := message.VerifC11OpenMem()
 	if err != nil {
-		panic(fmt.Sprintf("message.Open: %v", err))
+		panic(fmt.Sprintf("message.VerifC11OpenMem: %v", err))
 	}
-	return &msgDB{dir, eng}
+	return &msgDB{eng}
 }
 
 func (d *msgDB) close() {
@@ -66,7 +42,6 @@ func (d *msgDB) close() {
 		_ = d.eng.Close()
 		d.eng = nil
 	}
-	_ = os.RemoveAll(d.dir)
 }
 
 func (d *msgDB) db() *message.MessageDB { return d.eng.VerifC11DB() }
@@ -377,10 +352,7 @@ func validTable(dumps []message.VerifC11ChanDump, cuts []message.BackupChannelCu
 // streamOracle answers, for every section of a well-framed stream, what the abstract
 // decoders of the importer say (system-entry validation, identity map, every row).
 func streamOracle(stream []byte) string {
-	s, ok := parseMsgStream(stream)
-	if !ok {
-		return "[]"
-	}
+	s, _ := parseMsgStream(stream)
 	items := make([]string, len(s.Chans))
 	for i, ch := range s.Chans {
 		key := message.ChannelKey(ch.Key)
@@ -427,20 +399,55 @@ func exportStream(d *msgDB, hs uint16, cuts []message.BackupChannelCut) ([]byte,
 	return buf.Bytes(), 0
 }
 
-// budgetCtx is a context whose Err() starts failing after n successful calls (n < 0: never).
+// budgetCtx is a context that reports cancellation after n successful polls (n < 0: never).
+// pkg/db/message polls with a select on Done(); pkg/db/meta polls Err().
 type budgetCtx struct {
 	context.Context
-	left int
+	left    int
+	pollErr bool // count polls of Err() (meta) instead of Done() (message)
+	dead    bool
+}
+
+var closedChan = func() chan struct{} { c := make(chan struct{}); close(c); return c }()
+
+func (c *budgetCtx) poll() bool {
+	if c.dead {
+		return true
+	}
+	if c.left < 0 {
+		return false
+	}
+	if c.left == 0 {
+		c.dead = true
+		return true
+	}
+	c.left--
+	return false
+}
+
+func (c *budgetCtx) Done() <-chan struct{} {
+	if c.pollErr {
+		if c.dead {
+			return closedChan
+		}
+		return nil
+	}
+	if c.poll() {
+		return closedChan
+	}
+	return nil
 }
 
 func (c *budgetCtx) Err() error {
-	if c.left < 0 {
+	if c.pollErr {
+		if c.poll() {
+			return context.Canceled
+		}
 		return nil
 	}
-	if c.left == 0 {
+	if c.dead {
 		return context.Canceled
 	}
-	c.left--
 	return nil
 }
 
@@ -609,18 +616,45 @@ func (m *msgRun) round(o op) []byte {
 	after := dumpFor(tgt, stream)
 	m.terms = append(m.terms, vh.App("MImport", "true", before, hexs(stream), streamOracle(stream), "None", pRes(iclass, pStats(st)), after))
 	// re-export from the restored store with the same cuts
+	tgtDump := dumpDB(tgt, chanKeys, []message.ChannelID{chanIDOf("a"), chanIDOf("ab"), chanIDOf("b")})
 	stream2, class2 := exportStream(tgt, hs, cuts)
-	leos := make([]string, 3)
-	for c := 0; c < 3; c++ {
-		leos[c] = vh.N(leoOf(tgt, c))
+	if iclass == 0 {
+		m.terms = append(m.terms, vh.App("MExport", pDumps(tgtDump), vh.N(uint64(hs)), cutTerms, validTable(tgtDump, cuts), pRes(class2, hexs(stream2))))
 	}
-	m.terms = append(m.terms, vh.App("MReexport", hexs(stream), cutTerms, vh.B(iclass == 0), pRes(class2, hexs(stream2)), vh.List(leos)))
+	var leos []string
+	for _, cut := range cuts {
+		for c := 0; c < 3; c++ {
+			if chanKeys[c] != string(cut.Key) {
+				continue
+			}
+			retained := uint64(0)
+			for _, d := range srcDump {
+				if d.Key == chanKeys[c] && d.RetPresent && d.RetErr == 0 {
+					retained = d.RetainedMax
+				}
+			}
+			leos = append(leos, "("+vh.N(cut.Checkpoint.HW)+", "+vh.N(leoOf(tgt, c))+", "+vh.N(retained)+")")
+		}
+	}
+	m.terms = append(m.terms, vh.App("MReexport", hexs(stream), vh.B(iclass == 0), pRes(class2, hexs(stream2)), vh.List(leos)))
 	// the in-memory importer on another fresh target must end in the same store
 	tgt2 := openMsgDB()
 	defer tgt2.close()
 	_, dclass := importData(tgt2, stream)
-	m.terms = append(m.terms, vh.App("MImportData", hexs(stream), pRes(dclass, "tt"), vh.B(sameKV(tgt, tgt2))))
-	m.labels = append(m.labels, fmt.Sprintf("round(chans=%d,bytes<%d00)=I%d/R%d", len(cuts), len(stream)/100+1, iclass, class2))
+	m.terms = append(m.terms, vh.App("MImportData", hexs(stream), vh.B(iclass == 0), vh.N(dclass), vh.B(sameKV(tgt, tgt2))))
+	eq := "ne"
+	if bytes.Equal(stream, stream2) {
+		eq = "eq"
+	}
+	leoNote := ""
+	for _, cut := range cuts {
+		for c := 0; c < 3; c++ {
+			if chanKeys[c] == string(cut.Key) && iclass == 0 && leoOf(tgt, c) != cut.Checkpoint.HW {
+				leoNote = fmt.Sprintf(",leo%d!=hw%d", leoOf(tgt, c), cut.Checkpoint.HW)
+			}
+		}
+	}
+	m.labels = append(m.labels, fmt.Sprintf("round(chans=%d,bytes<%d00)=I%d/R%d%s%s", len(cuts), len(stream)/100+1, iclass, class2, eq, leoNote))
 	return stream
 }
 
@@ -656,6 +690,7 @@ func (m *msgRun) sweep(stream []byte, o op) {
 	}
 	tgt := openMsgDB()
 	defer func() { tgt.close() }()
+	base, _ := tgt.db().VerifC11CountKeys()
 	limit := 700
 	if o.B > 0 {
 		limit = o.B
@@ -676,6 +711,7 @@ func (m *msgRun) sweep(stream []byte, o op) {
 			_, c = importData(tgt, variant)
 		}
 		n, _ := tgt.db().VerifC11CountKeys()
+		n -= base
 		if c == 0 || n != 0 {
 			bad = append(bad, "("+vh.N(uint64(pos))+", "+vh.N(c)+", "+vh.N(uint64(n))+")")
 			tgt.close()
@@ -821,15 +857,18 @@ func (m *msgRun) reseal(stream []byte, o op) {
 	}
 	tgt := openMsgDB()
 	defer tgt.close()
+	base, _ := tgt.db().VerifC11CountKeys()
 	before := dumpFor(tgt, variant)
 	st, c1 := importReader(tgt, variant, -1)
 	after := dumpFor(tgt, variant)
 	n1, _ := tgt.db().VerifC11CountKeys()
+	n1 -= base
 	m.terms = append(m.terms, vh.App("MImport", "true", before, hexs(variant), streamOracle(variant), "None", pRes(c1, pStats(st)), after))
 	tgt2 := openMsgDB()
 	defer tgt2.close()
 	_, c2 := importData(tgt2, variant)
 	n2, _ := tgt2.db().VerifC11CountKeys()
+	n2 -= base
 	m.terms = append(m.terms, vh.App("MResealData", vh.N(c1), vh.N(uint64(n1)), vh.N(c2), vh.N(uint64(n2)), vh.B(sameKV(tgt, tgt2))))
 	m.labels = append(m.labels, fmt.Sprintf("reseal-%s=R%d/D%d", label, c1, c2))
 }
